@@ -6,6 +6,8 @@ import (
 	"encoding/json"
 	"fmt"
 	"net"
+	"os"
+	"path/filepath"
 	"strings"
 	"sync"
 	"testing"
@@ -17,6 +19,9 @@ import (
 
 	"tunnox-core/internal/cloud/models"
 	"tunnox-core/internal/core/storage"
+	"tunnox-core/internal/core/storage/hybrid"
+	jsonstorage "tunnox-core/internal/core/storage/json"
+	"tunnox-core/internal/core/storage/memory"
 	"tunnox-core/internal/packet"
 	"tunnox-core/internal/protocol/session"
 	"tunnox-core/internal/security"
@@ -35,7 +40,10 @@ var identities = []string{"none", "L", "T", "S", "S>L", "none>L", "failed"}
 // "other-mapping": the requester's own valid mapping (it is that mapping's listen client) and secret,
 // together with the victim tunnel's id
 var creds = []string{"mapping-id", "right-secret", "wrong-secret", "resume-garbage", "nothing", "other-mapping"}
-var backends = []string{"memory", "redis"}
+// json = hybrid{memory cache, JSON-file persistent tier}: the stand-alone deployment with persistence; the cached
+// copies of the mapping records are evicted after the mapping state is set up, so the decision is taken on
+// what the persistent tier holds
+var backends = []string{"memory", "redis", "json"}
 var mstates = []string{"active", "revoked", "expired", "inactive", "missing"}
 
 // "local-route": a routing record that names THIS node as the source while no bridge exists (a record that
@@ -171,6 +179,23 @@ func runCell(c Cell) (outcome, error) {
 		}
 		defer st.Close()
 	}
+	var jsonCache *memory.Storage
+	if c.Backend == "json" {
+		dir, err := os.MkdirTemp("", "c04json")
+		if err != nil {
+			return out, err
+		}
+		defer os.RemoveAll(dir)
+		pers, err := jsonstorage.New(&jsonstorage.Config{FilePath: filepath.Join(dir, "data.json"), AutoSave: false})
+		if err != nil {
+			return out, err
+		}
+		jsonCache = memory.New(context.Background())
+		hc := hybrid.DefaultConfig()
+		hc.EnablePersistent = true
+		st = hybrid.NewWithSharedCache(context.Background(), jsonCache, nil, pers, hc)
+		defer st.Close()
+	}
 	srv, err := miniserver.New(miniserver.Options{
 		Storage:    st,
 		RoutingTTL: 30 * time.Second,
@@ -303,6 +328,9 @@ func runCell(c Cell) (outcome, error) {
 			if _, gerr := srv.Cloud.GetPortMapping(mp.ID); gerr != nil {
 				break
 			}
+			if attempt >= 10 {
+				break // the delete has returned ten times and the record is still served: the oracle below judges what follows
+			}
 		} else {
 			time.Sleep(time.Millisecond)
 			chk, gerr := srv.Cloud.GetPortMapping(mp.ID)
@@ -315,6 +343,14 @@ func runCell(c Cell) (outcome, error) {
 		}
 		if attempt >= 10 {
 			return out, fmt.Errorf("setup: mapping state %s not reflected after %d attempts", c.MState, attempt)
+		}
+	}
+	if jsonCache != nil {
+		// the cache tier lets go of the mapping records (TTL expiry): the persistent tier decides
+		if keys, err := jsonCache.QueryByPrefix("tunnox:port_mapping:", 0); err == nil {
+			for k := range keys {
+				jsonCache.Delete(k)
+			}
 		}
 	}
 	// ---- the requester ----------------------------------------------------------------
@@ -545,6 +581,9 @@ func TestMatrix(t *testing.T) {
 							if be == "redis" && (ts == "none" || ts == "served") {
 								continue // the backend matters where records travel through the store
 							}
+							if be == "json" && ts != "none" && ts != "waiting" {
+								continue
+							}
 							i++
 							if !vkit.Mine(i) {
 								continue
@@ -590,6 +629,30 @@ func TestReplay(t *testing.T) {
 	path := vkit.Replaying()
 	if path == "" {
 		t.Skip("no VERIF_REPLAY")
+	}
+	var xc XNCell
+	vkit.LoadReplay(path, &xc)
+	if xc.CrossNode {
+		key, detail, err := runXN(xc)
+		if err != nil {
+			t.Fatal(err)
+		}
+		if key != "" {
+			vkit.Violation(t, key, detail, xc)
+		}
+		return
+	}
+	var rc RaceCase
+	vkit.LoadReplay(path, &rc)
+	if rc.StateRace != "" {
+		out, err := runStateRace(rc)
+		if err != nil {
+			t.Fatal(err)
+		}
+		if out.key != "" {
+			vkit.Violation(t, out.key, out.detail, rc)
+		}
+		return
 	}
 	var c Cell
 	if _, err := vkit.LoadReplay(path, &c); err != nil {
